@@ -407,7 +407,7 @@ class Binner(dict):
                             yerr[i] = ymean[i]
 
                         if self.weights is not None:
-                            whist[i] = self.x[w[0]] * self.weights[w[0]]
+                            whist[i] = self.weights[w[0]]
                             wxmean[i] = xmean[i]
                             wxstd[i] = 0
                             wxerr[i] = wxmean[i]
